@@ -118,6 +118,10 @@ func (cv0 *HookConfigV0) ConvertAndCheck(c *HookConfig) error {
 			kubeConfig.BindingName = kubeCfg.Name
 		}
 		kubeConfig.Queue = "main"
+		// v0 has no keepFullObjectsInMemory option: full objects are always kept, the v0
+		// binding context is built from the object (resourceNamespace, resourceKind, resourceName).
+		kubeConfig.KeepFullObjectsInMemory = true
+		kubeConfig.Monitor.KeepFullObjectsInMemory = true
 
 		c.OnKubernetesEvents = append(c.OnKubernetesEvents, kubeConfig)
 	}
